@@ -11,9 +11,11 @@ import (
 	"errors"
 	"fmt"
 	"os"
+	"reflect"
 	"regexp"
 	"strconv"
 	"strings"
+	"sync"
 	"time"
 
 	"github.com/traefik/yaegi/interp"
@@ -312,6 +314,39 @@ func main() {
 	Show(@, ys, Pair(1, 2))
 }
 `,
+	"qualified-types": `package main
+
+import (
+	"sync"
+
+	. "verif/engine/twin/h"
+)
+
+type Counter struct {
+	mu sync.Mutex
+	n  int
+}
+
+func (c *Counter) Add(d int) {
+	Show(@); c.mu.Lock()
+	Show(@); c.n += d
+	Show(@); c.mu.Unlock()
+}
+
+func total(m *sync.Mutex, c *Counter) int {
+	Show(@); m.Lock()
+	defer m.Unlock()
+	Show(@); return c.n
+}
+
+func main() {
+	Show(@); c := &Counter{}
+	Show(@); c.Add(2)
+	Show(@); c.Add(3)
+	var m sync.Mutex
+	Show(@, total(&m, c))
+}
+`,
 	"calls": `package main
 
 import . "verif/engine/twin/h"
@@ -496,6 +531,9 @@ type program struct {
 	Funcs []string // function names
 }
 
+// syncExports: the one compiled package (besides h) a corpus program refers to, for package-qualified types in declarations.
+var syncExports = interp.Exports{"sync/sync": {"Mutex": reflect.ValueOf((*sync.Mutex)(nil)), "WaitGroup": reflect.ValueOf((*sync.WaitGroup)(nil))}}
+
 var trailRe = regexp.MustCompile(`^(\s*)Show\(@([^;]*)\); (.+)$`)
 var jumpRe = regexp.MustCompile(`^(return|continue|break|goto|panic|fallthrough|defer|go |if |for |switch |select )`)
 
@@ -504,7 +542,7 @@ var funcRe = regexp.MustCompile(`(?m)^func (?:\([^)]*\) )?([A-Za-z_][A-Za-z0-9_]
 func load(thorough bool) []program {
 	var ps []program
 	names := []string{"branch", "branch-both-ways", "typeswitch", "labels-goto", "nested-closures-defers", "multi-return-variadic", "embedding", "select-default", "loop", "calls", "recursion", "closure", "defer", "panic-recover", "panic-uncaught", "switch", "methods"}
-	names = append(names, "pkgvars", "generic")
+	names = append(names, "pkgvars", "generic", "qualified-types")
 	// every program also in a second form with the marker AFTER the statement of its line (so that the statement a line
 	// breakpoint stops on is an assignment, an increment, a send ... and not always a call)
 	for _, n := range append([]string{}, names...) {
@@ -582,6 +620,7 @@ func plain(p program) outcome {
 	steps := 0
 	i := interp.New(interp.Options{Stdout: &buf, Stderr: &ebuf})
 	i.Use(h.Exports(&buf, &steps))
+	i.Use(syncExports)
 	prog, err := i.Compile(p.Src)
 	if err != nil {
 		return outcome{Err: "compile:" + err.Error()}
@@ -595,6 +634,7 @@ func debug(p program, s session) (o outcome) {
 	steps := 0
 	i := interp.New(interp.Options{Stdout: &buf, Stderr: &ebuf})
 	i.Use(h.Exports(&buf, &steps))
+	i.Use(syncExports)
 	prog, err := i.Compile(p.Src)
 	if err != nil {
 		return outcome{Err: "compile:" + err.Error()}
@@ -934,7 +974,7 @@ func main() {
 	r.Set("deviation_bound", bound)
 	r.Set("programs", len(ps))
 	r.Set("exhaustive", len(res.Abnormal) == 0)
-	r.Set("rule", "corpus of 19 sequential programs (branches, loops, calls, recursion, closures, defers, recovered and uncaught panics, switch/fallthrough, methods, dependent package-level variables + init, generic functions), each in two forms: marker before / after the statement of its line with one Show(line) marker per breakable line; breakpoint sets: none, every marker line, each single line (thorough: each pair), each function, all functions, each function x each line in one request (both orders), all functions + every line; start with Continue or Step(DebugEntry); resume answers Continue/StepInto/StepOver/StepOut explored by deviation-bounded DFS (default Continue, <= bound deviations); states = distinct event traces")
+	r.Set("rule", "corpus of 20 sequential programs (branches, loops, calls, recursion, closures, defers, recovered and uncaught panics, switch/fallthrough, methods, dependent package-level variables + init, generic functions, package-qualified types in declarations), each in two forms: marker before / after the statement of its line with one Show(line) marker per breakable line; breakpoint sets: none, every marker line, each single line (thorough: each pair), each function, all functions, each function x each line in one request (both orders), all functions + every line; start with Continue or Step(DebugEntry); resume answers Continue/StepInto/StepOver/StepOut explored by deviation-bounded DFS (default Continue, <= bound deviations); states = distinct event traces")
 	r.Assumptions = []string{"sequential programs only (no goroutines under the debugger)", "lines without a marker (compound statement headers) only take part in the transparency comparison", "every-line breakpoint sets are explored with one deviation less than the bound"}
 	for _, i := range []int{0, len(units) / 2, len(units) - 1} {
 		r.Sample(units[i].Base)
